@@ -51,12 +51,12 @@ def Err.pyName : Err → String
     * `bandWhole`: `check_band_pipeline` treats a string `band_used` as one band name instead of
       iterating over its characters;
     * `resetPipelineCfg`: `check_conf` empties `self.pipeline_cfg` before its first round;
-    * `mergeOnlyDicts`: `update_conf` merges a user dictionary only into a default that is itself a
-      dictionary (otherwise the user's value simply replaces the default). -/
+    * `strictMerge`: `update_conf` raises `TypeError` when the user gives a dictionary where the
+      default holds something that is not a dictionary (even an empty one). -/
 structure MachineFlags where
   bandWhole : Bool := false
   resetPipelineCfg : Bool := false
-  mergeOnlyDicts : Bool := false
+  strictMerge : Bool := false
   deriving Repr, DecidableEq, Inhabited
 
 
@@ -79,7 +79,7 @@ def updateVal (g : Bool) (dv : Option JVal) : JVal → Except Err JVal
     | none => (updateConf g [] sub).map JVal.obj
     | some (.obj dsub) => (updateConf g dsub sub).map JVal.obj
     | some other =>
-      if g then .ok (.obj sub)               -- `mergeOnlyDicts`: the user's dictionary replaces the default
+      if g then .error .type                 -- `strictMerge`: refused outright
       else
       match sub with
       | [] => .ok other
@@ -288,7 +288,7 @@ def defaultPipeline : Dict := [("pipeline", .obj [])]
     `get_config_pipeline` kept (`{"pipeline": …}` or `{}`) -/
 def checkPipelineSection (o : Oracle) (fl : MachineFlags) (reg : List KindDesc) (user : Dict) (l r : ImgInfo)
     (m : CState) : Except Err (Dict × CState) :=
-  match updateConf fl.mergeOnlyDicts defaultPipeline user with
+  match updateConf fl.strictMerge defaultPipeline user with
   | .error e => .error e
   | .ok cfg =>
     match Dict.lookup cfg "pipeline" with
@@ -296,7 +296,7 @@ def checkPipelineSection (o : Oracle) (fl : MachineFlags) (reg : List KindDesc) 
       match machineCheck o fl reg pipeline l r m with
       | .error e => .error e
       | .ok m' =>
-        match updateConf fl.mergeOnlyDicts cfg [("pipeline", .obj m'.pipelineCfg)] with
+        match updateConf fl.strictMerge cfg [("pipeline", .obj m'.pipelineCfg)] with
         | .error e => .error e
         | .ok cfg2 =>
           match Dict.lookup cfg2 "pipeline" with
@@ -438,7 +438,7 @@ def checkImages (files : Files) (left right : JVal) : Except Err Unit :=
 
 /-- `check_input_section(user_cfg)`; `user` is what `get_config_input` kept -/
 def checkInputSection (files : Files) (fl : MachineFlags) (sch : InputSchemas) (user : Dict) : Except Err Dict :=
-  match updateConf fl.mergeOnlyDicts sch.defaults user with
+  match updateConf fl.strictMerge sch.defaults user with
   | .error e => .error e
   | .ok cfg =>
     match subscript (.obj cfg) "input" with
